@@ -42,6 +42,13 @@ CONSTANTS
     Scripts,     \* clock scripts <<reading at 1st now(), reading at 2nd now()>>, 0 = None
     Forms,       \* subset of {"none", "plain", "setup", "guard", "newspan"} \cup ResultForms
     Frames,      \* subset of {"in", "out"}: operations run inside / after the span's frame
+    Carriers,    \* what the #[span] attribute is applied to - subset of {"fn", "async_fn", "block"}: a
+                 \* sync fn item, an async fn item, a sync block expression (a statement or the value
+                 \* of a `let`; needs the unstable features stmt_expr_attributes + proc_macro_hygiene).
+                 \* The statement is the same for every carrier: every macro-form case is executed
+                 \* through each of them.  ("async_block" is not offered: the attribute parses its
+                 \* input as a statement, an async block needs a trailing `;` for that, so it can only
+                 \* be written where the future is thrown away unpolled - nothing to observe)
     MaxLen,      \* 0, or: at most MaxLen non-terminal operations after New (hist in the view)
     F2Bug,       \* TRUE: transcribe with_completion as found (defect F2)
     Emit         \* TRUE: print one REPLAY line per transition
@@ -175,6 +182,9 @@ Allowed(op) ==
        ELSE IF form \in ResultForms
             THEN op \in {"CompleteWithResult", "DropWhilePanicking"}
        ELSE op \in TypeKeeping
+\* forms that are attribute expansions (they have a carrier)
+AttrForms == {"plain", "setup", "guard"} \cup ResultForms
+ASSUME Carriers \subseteq {"fn", "async_fn", "block"}
 \* forms in which the body has the guard in hand (explicit terminal operations)
 HandForms == {"none", "guard", "newspan"}
 
@@ -482,6 +492,7 @@ LiveGuardWhole == phase = "live" => g.hasData /\ g.st # "Completed"
 EmitReplay ==
     Emit => PrintT(<<"REPLAY", ToJson([verdict |-> verdict', script |-> script',
                  form |-> form', frame |-> frame', done |-> phase' = "done",
+                 carriers |-> IF form' \in AttrForms THEN Carriers ELSE {},
                  ops |-> hist', expect |-> AExpected', trail |-> ATrail',
                  probeBase |-> ProbeBase', probes |-> Probes'])>>)
 =============================================================================
